@@ -11,6 +11,9 @@ Lemma ascii_kw_plain : forall c, In c [97; 110; 100; 111; 114; 119; 105; 116; 10
   is_space ascii_oracle c = false /\ lower_ch ascii_oracle c = [c].
 Proof. intros c Hc. simpl in Hc. repeat (destruct Hc as [<-|Hc]; [split; reflexivity|]). destruct Hc. Qed.
 
+Lemma ascii_paren_not_word : is_wordch ascii_oracle 40%N = false /\ is_wordch ascii_oracle 41%N = false.
+Proof. split; reflexivity. Qed.
+
 Lemma ascii_lower_space : forall c, is_space ascii_oracle c = true -> lower_ch ascii_oracle c = [c].
 Proof.
   intros c H. cbn [is_space lower_ch ascii_oracle] in *. destruct (N.leb 65 c && N.leb c 90) eqn:E; [|reflexivity]. exfalso.
